@@ -63,7 +63,7 @@ def updBest {β} (old : Option (Nat × β)) (v : Option Nat) (p : β) : Option (
     | some (y, q) => if x < y then some (x, p) else some (y, q)
 
 /-- running strict minimum over a list, with a payload remembered for the first element attaining it -/
-def bestOf {α β} (l : List α) (f : α → Option Nat) (g : α → β) : Option (Nat × β) :=
+def strictMin {α β} (l : List α) (f : α → Option Nat) (g : α → β) : Option (Nat × β) :=
   l.foldl (fun acc a => updBest acc (f a) (g a)) none
 
 /-! ## one column -/
@@ -98,7 +98,7 @@ def projOf (tab : Array Ent) : Array (Option Nat) := tab.map (fun e => e.map (·
 /-- `compute_column(c)`, `c` the last column: `(optimal_score, optimal_score_index, optimal_transmission_value,
 previous_transmission_value)`; `none` = the score is still `UINT_MAX` -/
 def lastBest (I : Inst) (ord : Ord) (c : Nat) (prev : Array (Option Nat)) : Option (Nat × Nat × Nat × Nat) :=
-  bestOf (cellsOf ord (I.activeAt c).length I.ntrans) (fun it => dpCell I c prev it.1 it.2)
+  strictMin (cellsOf ord (I.activeAt c).length I.ntrans) (fun it => dpCell I c prev it.1 it.2)
     (fun it => (it.1, it.2, minRecomb I c prev it.1 it.2))
 
 /-! ## the table state -/
